@@ -1,0 +1,366 @@
+//go:build verif
+
+package main
+
+import (
+	"fmt"
+	"mltwist/internal/exprtransform"
+	"mltwist/pkg/expr"
+	"mltwist/pkg/expr/exprtools"
+	"strconv"
+	"strings"
+)
+
+// replaceRule is the substitution function used for ReplaceAll: a node of the
+// requested kind whose width equals w is replaced by RegLoad("repl", w).
+func replaceRule[T expr.Expr](w expr.Width) exprtransform.ExprReplaceFunc[T] {
+	return func(ex T) (expr.Expr, bool) {
+		if ex.Width() != w {
+			return nil, false
+		}
+		return expr.NewRegLoad("repl", w), true
+	}
+}
+
+func findAllKind(kind string, ex expr.Expr) []expr.Expr {
+	switch kind {
+	case "const":
+		return toExprs(exprtransform.FindAll[expr.Const](ex))
+	case "binary":
+		return toExprs(exprtransform.FindAll[expr.Binary](ex))
+	case "less":
+		return toExprs(exprtransform.FindAll[expr.Less](ex))
+	case "memload":
+		return toExprs(exprtransform.FindAll[expr.MemLoad](ex))
+	case "regload":
+		return toExprs(exprtransform.FindAll[expr.RegLoad](ex))
+	default:
+		panic(parseError("bad kind"))
+	}
+}
+
+func replaceAllKind(kind string, w expr.Width, ex expr.Expr) expr.Expr {
+	switch kind {
+	case "const":
+		return exprtransform.ReplaceAll(ex, replaceRule[expr.Const](w))
+	case "binary":
+		return exprtransform.ReplaceAll(ex, replaceRule[expr.Binary](w))
+	case "less":
+		return exprtransform.ReplaceAll(ex, replaceRule[expr.Less](w))
+	case "memload":
+		return exprtransform.ReplaceAll(ex, replaceRule[expr.MemLoad](w))
+	case "regload":
+		return exprtransform.ReplaceAll(ex, replaceRule[expr.RegLoad](w))
+	default:
+		panic(parseError("bad kind"))
+	}
+}
+
+func toExprs[T expr.Expr](es []T) []expr.Expr {
+	r := make([]expr.Expr, len(es))
+	for i, e := range es {
+		r[i] = e
+	}
+	return r
+}
+
+func init() {
+	// fold E => ConstFold(E) | ConstFold(ConstFold(E))
+	register("fold", func(t *tokens) string {
+		e := t.expr()
+		f1 := exprtransform.ConstFold(e)
+		f2 := exprtransform.ConstFold(f1)
+		return fmtExpr(f1) + " | " + fmtExpr(f2)
+	})
+	register("purge", func(t *tokens) string {
+		return fmtExpr(exprtransform.PurgeWidthGadgets(t.expr()))
+	})
+	register("setw", func(t *tokens) string {
+		w := t.width()
+		return fmtExpr(exprtransform.SetWidth(t.expr(), w))
+	})
+	register("poss", func(t *tokens) string {
+		return fmtExprs(exprtransform.Possibilities(t.expr()))
+	})
+	register("equal", func(t *tokens) string {
+		a := t.expr()
+		b := t.expr()
+		return fmtBool(exprtransform.Equal(a, b))
+	})
+	register("find", func(t *tokens) string {
+		kind := t.next()
+		return fmtExprs(findAllKind(kind, t.expr()))
+	})
+	register("repl", func(t *tokens) string {
+		kind := t.next()
+		w := t.width()
+		return fmtExpr(replaceAllKind(kind, w, t.expr()))
+	})
+	register("exprs", func(t *tokens) string {
+		return fmtExprs(exprtransform.Exprs(t.effect()))
+	})
+	register("exprsmany", func(t *tokens) string {
+		n := t.int()
+		efs := make([]expr.Effect, n)
+		for i := range efs {
+			efs[i] = t.effect()
+		}
+		return fmtExprs(exprtransform.ExprsMany(efs))
+	})
+	// efapply <w> EF: EffectApply with f = SetWidth(., w)
+	register("efapply", func(t *tokens) string {
+		w := t.width()
+		ef := t.effect()
+		f := func(e expr.Expr) expr.Expr { return exprtransform.SetWidth(e, w) }
+		return fmtEffect(exprtransform.EffectApply(ef, f))
+	})
+	register("efsapply", func(t *tokens) string {
+		w := t.width()
+		n := t.int()
+		efs := make([]expr.Effect, n)
+		for i := range efs {
+			efs[i] = t.effect()
+		}
+		f := func(e expr.Expr) expr.Expr { return exprtransform.SetWidth(e, w) }
+		return fmtEffects(exprtransform.EffectsApply(efs, f))
+	})
+	// wgarg E => some A | none
+	register("wgarg", func(t *tokens) string {
+		a, ok := exprtools.WidthGadgetArg(t.expr())
+		if !ok {
+			return "none"
+		}
+		return "some " + fmtExpr(a)
+	})
+
+	// gadget <name> <params...> : build a gadget (exprtools constructor).
+	// gadgetf ... : the same followed by ConstFold.
+	register("gadget", func(t *tokens) string { return fmtExpr(buildGadget(t)) })
+	register("gadgetf", func(t *tokens) string {
+		return fmtExpr(exprtransform.ConstFold(buildGadget(t)))
+	})
+
+	// Constant constructors (C27).
+	register("constuint", opConstUint)
+	register("constint", opConstInt)
+	register("constfromuint", opConstFromUint)
+	register("constfromint", opConstFromInt)
+	register("touint", opToUint)
+	register("withwidth", func(t *tokens) string {
+		w := t.width()
+		c := t.expr().(expr.Const)
+		return fmtExpr(c.WithWidth(w))
+	})
+	// newconst <w> <hex> <hex2>: NewConst(b, w), then the caller overwrites b
+	// with hex2 (same length) and the constant is printed.
+	register("newconst", func(t *tokens) string {
+		w := t.width()
+		b := t.hex()
+		b2 := t.hex()
+		c := expr.NewConst(b, w)
+		copy(b, b2)
+		return fmtExpr(c)
+	})
+}
+
+func buildGadget(t *tokens) expr.Expr {
+	name := t.next()
+	switch name {
+	case "negate":
+		w := t.width()
+		return exprtools.Negate(t.expr(), w)
+	case "sub":
+		w := t.width()
+		a, b := t.expr(), t.expr()
+		return exprtools.Sub(a, b, w)
+	case "abs":
+		w := t.width()
+		return exprtools.Abs(t.expr(), w)
+	case "ones":
+		return exprtools.Ones(t.width())
+	case "mod":
+		w := t.width()
+		a, b := t.expr(), t.expr()
+		return exprtools.Mod(a, b, w)
+	case "signedmul":
+		w := t.width()
+		a, b := t.expr(), t.expr()
+		return exprtools.SignedMul(a, b, w)
+	case "signeddiv":
+		w := t.width()
+		a, b := t.expr(), t.expr()
+		return exprtools.SignedDiv(a, b, w)
+	case "signedmod":
+		w := t.width()
+		a, b := t.expr(), t.expr()
+		return exprtools.SignedMod(a, b, w)
+	case "signextend":
+		w := t.width()
+		a, b := t.expr(), t.expr()
+		return exprtools.SignExtend(a, b, w)
+	case "rsha":
+		w := t.width()
+		a, b := t.expr(), t.expr()
+		return exprtools.RshA(a, b, w)
+	case "bitnot":
+		w := t.width()
+		return exprtools.BitNot(t.expr(), w)
+	case "bitand":
+		w := t.width()
+		a, b := t.expr(), t.expr()
+		return exprtools.BitAnd(a, b, w)
+	case "bitor":
+		w := t.width()
+		a, b := t.expr(), t.expr()
+		return exprtools.BitOr(a, b, w)
+	case "bitxor":
+		w := t.width()
+		a, b := t.expr(), t.expr()
+		return exprtools.BitXor(a, b, w)
+	case "bool":
+		return exprtools.Bool(t.expr())
+	case "not":
+		return exprtools.Not(t.expr())
+	case "boolcond":
+		w := t.width()
+		c, a, b := t.expr(), t.expr(), t.expr()
+		return exprtools.BoolCond(c, a, b, w)
+	case "eq", "lts", "leu", "les":
+		w := t.width()
+		a, b, tr, f := t.expr(), t.expr(), t.expr(), t.expr()
+		switch name {
+		case "eq":
+			return exprtools.Eq(a, b, tr, f, w)
+		case "lts":
+			return exprtools.Lts(a, b, tr, f, w)
+		case "leu":
+			return exprtools.Leu(a, b, tr, f, w)
+		default:
+			return exprtools.Les(a, b, tr, f, w)
+		}
+	case "maskbits":
+		w := t.width()
+		cnt := t.uint()
+		if cnt > 65535 {
+			panic(parseError("bad bit count"))
+		}
+		return exprtools.MaskBits(t.expr(), exprtools.BitCnt(cnt), w)
+	case "intnegative":
+		w := t.width()
+		return exprtools.IntNegative(t.expr(), w)
+	case "widthgadget":
+		w := t.width()
+		return exprtools.NewWidthGadget(t.expr(), w)
+	default:
+		panic(parseError("unknown gadget " + name))
+	}
+}
+
+// Integer types are named u8,u16,u32,u64 / i8,i16,i32,i64. Values are decimal.
+
+func opConstUint(t *tokens) string {
+	typ := t.next()
+	w := t.width()
+	v, err := strconv.ParseUint(t.next(), 10, 64)
+	if err != nil {
+		panic(parseError("bad value"))
+	}
+	switch typ {
+	case "u8":
+		return fmtExpr(expr.NewConstUint(uint8(v), w))
+	case "u16":
+		return fmtExpr(expr.NewConstUint(uint16(v), w))
+	case "u32":
+		return fmtExpr(expr.NewConstUint(uint32(v), w))
+	case "u64":
+		return fmtExpr(expr.NewConstUint(uint64(v), w))
+	}
+	panic(parseError("bad type"))
+}
+
+func opConstInt(t *tokens) string {
+	typ := t.next()
+	w := t.width()
+	v, err := strconv.ParseInt(t.next(), 10, 64)
+	if err != nil {
+		panic(parseError("bad value"))
+	}
+	switch typ {
+	case "i8":
+		return fmtExpr(expr.NewConstInt(int8(v), w))
+	case "i16":
+		return fmtExpr(expr.NewConstInt(int16(v), w))
+	case "i32":
+		return fmtExpr(expr.NewConstInt(int32(v), w))
+	case "i64":
+		return fmtExpr(expr.NewConstInt(int64(v), w))
+	}
+	panic(parseError("bad type"))
+}
+
+func opConstFromUint(t *tokens) string {
+	typ := t.next()
+	v, err := strconv.ParseUint(t.next(), 10, 64)
+	if err != nil {
+		panic(parseError("bad value"))
+	}
+	switch typ {
+	case "u8":
+		return fmtExpr(expr.ConstFromUint(uint8(v)))
+	case "u16":
+		return fmtExpr(expr.ConstFromUint(uint16(v)))
+	case "u32":
+		return fmtExpr(expr.ConstFromUint(uint32(v)))
+	case "u64":
+		return fmtExpr(expr.ConstFromUint(uint64(v)))
+	}
+	panic(parseError("bad type"))
+}
+
+func opConstFromInt(t *tokens) string {
+	typ := t.next()
+	v, err := strconv.ParseInt(t.next(), 10, 64)
+	if err != nil {
+		panic(parseError("bad value"))
+	}
+	switch typ {
+	case "i8":
+		return fmtExpr(expr.ConstFromInt(int8(v)))
+	case "i16":
+		return fmtExpr(expr.ConstFromInt(int16(v)))
+	case "i32":
+		return fmtExpr(expr.ConstFromInt(int32(v)))
+	case "i64":
+		return fmtExpr(expr.ConstFromInt(int64(v)))
+	}
+	panic(parseError("bad type"))
+}
+
+func opToUint(t *tokens) string {
+	typ := t.next()
+	c, ok := t.expr().(expr.Const)
+	if !ok {
+		panic(parseError("not a constant"))
+	}
+	var v uint64
+	var fits bool
+	switch typ {
+	case "u8":
+		x, f := expr.ConstUint[uint8](c)
+		v, fits = uint64(x), f
+	case "u16":
+		x, f := expr.ConstUint[uint16](c)
+		v, fits = uint64(x), f
+	case "u32":
+		x, f := expr.ConstUint[uint32](c)
+		v, fits = uint64(x), f
+	case "u64":
+		x, f := expr.ConstUint[uint64](c)
+		v, fits = uint64(x), f
+	default:
+		panic(parseError("bad type"))
+	}
+	return fmt.Sprintf("%d %s", v, fmtBool(fits))
+}
+
+var _ = strings.TrimSpace
